@@ -339,6 +339,14 @@ def rule_validations_present(ctx, rep: Report, rid="V6"):
         for sub in ast.walk(fn):
             if isinstance(sub, ast.FunctionDef) and sub is not fn:
                 cands += _guarded_rejections(sub)
+        # checks moved into a helper method that this one calls: the helper's rejections count, under the guards of the call
+        for c in walk_no_nested(fn):
+            if isinstance(c, ast.Call) and isinstance(c.func, ast.Attribute) and unparse(c.func.value) in ("self", cls):
+                h = prog.find_method(ci, c.func.attr)
+                if h is None or h[1] is fn:
+                    continue
+                outer = [("" if pol else "not ") + f"({t})" for t, pol in guards_of(c, fn, include_exits=False)]
+                cands += [(n_, g_, outer + gs_) for n_, g_, gs_ in _guarded_rejections(h[1])]
         hits = [(n, g, gs) for n, g, gs in cands if pred(g)]
         rep.add(rid, f"validation:{cls}.{meth}:{what}", bool(hits),
                 f"no raise/assert enforcing '{what}' found in {cls}.{meth}: such input would be "
